@@ -117,10 +117,18 @@ def pixel_check(ctx):
             ops = [" ".join([o.split()[0]] + [str(FB(bits_f32(int(v)) / s)) for v in o.split()[1:]]) for o in ops]
             width = width / s
             tx, ty = 0.0, 0.0
-        xf = (s, 0.0, 0.0, s, tx, ty)
+        # one stroke in five under an orientation-reversing transform (y-up coordinates, mirrored x): the region is mirrored
+        # with it.  The mirror is folded into the geometry handed to the region oracle, so the oracle still sees a
+        # plain scale: device = s * (fx * x, fy * y) + (tx', ty')
+        fx, fy = (rng.choice([(1, -1), (-1, 1)]) if (i % 5 == 2 and fam not in (3,)) else (1, 1))
+        if (fx, fy) != (1, 1):
+            tx, ty = (float(W) - tx if fx < 0 else tx), (float(H) - ty if fy < 0 else ty)
+        xf = (fx * s, 0.0, 0.0, fy * s, tx, ty)
         style = "STYLE %d %s %s %d 0 %d" % (FB(width), cap, join, FB(ml), FB(0.0))
         scenes.append("scene %d %d %d I %s ; xf %s ; stroke %s %s SRC solid ffffffff 3 %d 1" % (
             i, W, H, " ".join(["00000000"] * (W * H)), scene.xf_tokens(xf), scene.path_tokens(ops, i % 2), style, FB(1.0)))
+        if (fx, fy) != (1, 1):
+            ops = [o if o == "Z" else "%s %d %d" % (o.split()[0], FB(fx * bits_f32(int(o.split()[1]))), FB(fy * bits_f32(int(o.split()[2])))) for o in ops]
         meta.append((ops, width, cap, join, ml, s, tx, ty))
     # wide strokes with small turning angles: the join wedge is pixels wide far away from the vertex
     angs = [2.4, 2.2, 1.8, 2.5, 5.0, 1.2, 3.0, 8.0, 0.5]
